@@ -13,6 +13,9 @@ mod c09;
 mod c12;
 mod c13;
 mod c14;
+mod c15;
+mod conc;
+mod sched;
 mod c17;
 mod inputs;
 mod loader;
@@ -42,6 +45,8 @@ fn replay_dispatch(ctx: &Ctx, id: &str, case: &serde_json::Value) {
                         "C07" => c07::replay(ctx, &case),
                         "C13" => c13::replay(ctx, &case),
                         "C09" => c09::replay(ctx, &case),
+                        "C15" => c15::replay(ctx, c15::Which::C15, &case),
+                        "C16" => c15::replay(ctx, c15::Which::C16, &case),
                         "C17" => c17::replay(ctx, &case),
                         "C18" => c18::replay(ctx, &case),
                         "C19" => c19::replay(ctx, &case),
@@ -213,6 +218,8 @@ fn main() {
                         "C07" => c07::run(&ctx),
                         "C13" => c13::run(&ctx),
                         "C09" => c09::run(&ctx),
+                        "C15" => c15::run(&ctx, c15::Which::C15),
+                        "C16" => c15::run(&ctx, c15::Which::C16),
                         "C17" => c17::run(&ctx),
                         "C18" => c18::run(&ctx),
                         "C19" => c19::run(&ctx),
